@@ -66,22 +66,84 @@ class Stream:
         return []
 
 
+class CaseTimeout(BaseException):
+    """raised by the watchdog inside a driver / oracle call that does not come back"""
+
+
+CASE_TIMEOUT = float(os.environ.get('VERIF_CASE_TIMEOUT', '300'))
+_TIMEOUTS = [0]      # after three calls that did not come back the limit drops to 5 s for the rest of the run
+
+
+def _watchdog(fn, *args):
+    """run fn(*args) under a wall-clock limit (main thread only): a changed implementation may loop for ever - e.g. a
+    pagination window that never empties - and the check must come back with that case as its finding"""
+    import signal
+    import threading
+    if threading.current_thread() is not threading.main_thread() or CASE_TIMEOUT <= 0:
+        return fn(*args)
+
+    def on_alarm(signum, frame):
+        _TIMEOUTS[0] += 1
+        raise CaseTimeout()
+    old = signal.signal(signal.SIGALRM, on_alarm)
+    # repeating: a driver that swallows the exception (it records whatever the implementation raises) is hit again
+    signal.setitimer(signal.ITIMER_REAL, CASE_TIMEOUT if _TIMEOUTS[0] < 3 else 5.0, 2.0)
+    try:
+        return fn(*args)
+    finally:
+        signal.setitimer(signal.ITIMER_REAL, 0)
+        signal.signal(signal.SIGALRM, old)
+
+
 def safe_impl(stream, case):
     """the implementation driver must not crash the check: an exception escaping it is an observation"""
     try:
-        return stream.impl(case)
+        return _watchdog(stream.impl, case)
+    except CaseTimeout:
+        return 'IMPL-TIMEOUT no answer within %ds' % CASE_TIMEOUT
     except BaseException as e:  # noqa
         if core.fatal(e):
             raise
         return 'IMPL-RAISED %s: %s' % (type(e).__name__, str(e)[:200])
 
 
+def safe_oracle(stream, case, obs):
+    try:
+        return _watchdog(stream.oracle, case, obs)
+    except CaseTimeout:
+        return 'the implementation did not come back within %ds while the oracle was asking it' % CASE_TIMEOUT
+
+
+SHRINK_SECONDS = float(os.environ.get('VERIF_SHRINK_SECONDS', '240'))
+_SHRINK_SPENT = [0.0]      # seconds spent minimising failing cases in this run (all streams)
+
+
 def shrink_case(stream, case, fails, budget=200):
-    """greedy shrinking; `fails(list of cases) -> list of bool`"""
+    """greedy shrinking; `fails(list of cases) -> list of bool`.  Minimising is a courtesy to the reader of the replay
+    file: once the run has spent SHRINK_SECONDS on it, failing cases are reported as they were generated"""
     cur = case
     steps = 0
-    while steps < budget:
+    t0 = time.time()
+    try:
+        return _shrink_case(stream, case, fails, budget)
+    finally:
+        _SHRINK_SPENT[0] += time.time() - t0
+
+
+def _shrink_case(stream, case, fails, budget):
+    cur = case
+    steps = 0
+    t0 = time.time()
+    while steps < budget and _SHRINK_SPENT[0] + (time.time() - t0) < SHRINK_SECONDS:
         cands = list(stream.shrink(cur))[:64]
+        # keep one evaluation small: a multi-megabyte literal takes the assistant minutes to read
+        size, keep = 0, []
+        for c in cands:
+            size += len(json.dumps(c, default=str))
+            if keep and size > 300000:
+                break
+            keep.append(c)
+        cands = keep
         if not cands:
             break
         steps += len(cands)
@@ -234,7 +296,7 @@ def run_check(prop, streams, argv, level_text='', trusted_base=(), assumptions=(
         for c, io, mo in zip(cases, impl_obs, model_obs):
             oc = None
             try:
-                oc = st.oracle(c, io)
+                oc = safe_oracle(st, c, io)
             except Exception:  # noqa
                 oc = 'oracle crashed: ' + traceback.format_exc()[-500:]
             unmod = st.unmodelled(io, mo)
@@ -269,7 +331,7 @@ def run_check(prop, streams, argv, level_text='', trusted_base=(), assumptions=(
                 out = []
                 for x, a, b in zip(cands, ios, mos):
                     try:
-                        o = st.oracle(x, a)
+                        o = safe_oracle(st, x, a)
                     except Exception:  # noqa
                         o = None
                     d = b is not None and not st.unmodelled(a, b) and not st.same(a, b)
@@ -285,7 +347,7 @@ def run_check(prop, streams, argv, level_text='', trusted_base=(), assumptions=(
             except core.BuildError:
                 mo2 = None
             try:
-                oc2 = st.oracle(small, io2)
+                oc2 = safe_oracle(st, small, io2)
             except Exception:  # noqa
                 oc2 = oc
             def still_fails(x, a, b, o):
@@ -298,7 +360,7 @@ def run_check(prop, streams, argv, level_text='', trusted_base=(), assumptions=(
                 # the evidence, not raised.
                 io3 = safe_impl(st, c)
                 try:
-                    oc3 = st.oracle(c, io3)
+                    oc3 = safe_oracle(st, c, io3)
                 except Exception:  # noqa
                     oc3 = None
                 if still_fails(c, io3, mo, oc3):
